@@ -8,7 +8,8 @@
 EXTENDS Integers, Sequences, FiniteSets, TLC, Json
 CONSTANTS MaxLen
 Vars == {"VERIF_A", "VERIF_B"}
-Lits == {"x", "yy-"}
+\* (literal text may contain dollar signs - directly in front of a placeholder, or a shell-style $NAME, which is not a placeholder)
+Lits == {"x", "yy-", "$", "$VERIF_A "}
 Tokens == [t : {"lit"}, v : Lits] \cup [t : {"ph"}, v : Vars]
 ValueOf(v) == IF v = "VERIF_A" THEN "alpha" ELSE "b3"
 
